@@ -237,6 +237,11 @@ func VH_C19_step() {
 	a, b := c19Prior()
 	before := c19Observe(a)
 	s := c19NewSetting("s")
+	if vNondet[bool]("configurationReadBeforeTheSetting") {
+		// reading the configuration is harmless: a setting made after a read counts like any other
+		vCover("configuration-read-before-the-setting")
+		c19Observe(b)
+	}
 	s.applyOption(a, 7)
 	s.applyBuilder(b, 7)
 	oa, ob := c19Observe(a), c19Observe(b)
@@ -254,9 +259,16 @@ func VH_C19_ctor() {
 	var opts []any
 	b := NewNode()
 	want := c19Observe(NewNode())
+	readBetween := vNondet[bool]("configurationReadBetweenSettings")
+	if readBetween {
+		vCover("configuration-read-between-settings")
+	}
 	for i := 0; i < L; i++ {
 		s := c19NewSetting("s")
 		opts = append(opts, s.option(10+i))
+		if readBetween {
+			c19Observe(b)
+		}
 		s.applyBuilder(b, 10+i)
 		want = s.spec(want, 10+i)
 	}
@@ -398,10 +410,17 @@ func VH_C19_batchCtor() {
 	var opts []any
 	b := NewBatchNode()
 	want := c19BObserve(NewBatchNode())
+	readBetween := vNondet[bool]("configurationReadBetweenSettings")
+	if readBetween {
+		vCover("configuration-read-between-settings")
+	}
 	for i := 0; i < L; i++ {
 		s := c19BSetting("s")
 		vSig("kind", s.kind)
 		opts = append(opts, s.bOption(10+i))
+		if readBetween {
+			c19BObserve(b)
+		}
 		s.bApplyBuilder(b, 10+i)
 		want = s.bSpec(want, 10+i)
 	}
